@@ -189,14 +189,14 @@ def _worker(args):
     cur = {}
 
     def handler(request):
-        return httpx.Response(cur["st"], content=cur["raw"], headers={"content-type": "application/json"})
+        return httpx.Response(cur["st"], content=cur["raw"], headers=({"content-type": cur["ct"]} if cur["ct"] else {}))
 
     out = []
     if v.is_async:
         async def go():
             client = v.make(httpx.MockTransport(handler))
-            for st, raw in cases:
-                cur["st"], cur["raw"] = st, raw
+            for st, raw, ct in cases:
+                cur["st"], cur["raw"], cur["ct"] = st, raw, ct
                 try:
                     resp = await client.execute(QUERY, operation_name="Q", variables={})
                 except Exception as e:  # noqa: BLE001 — nothing may escape execute for a scripted response
@@ -207,8 +207,8 @@ def _worker(args):
         _clients.run_coro(go())
     else:
         client = v.make(httpx.MockTransport(handler))
-        for st, raw in cases:
-            cur["st"], cur["raw"] = st, raw
+        for st, raw, ct in cases:
+            cur["st"], cur["raw"], cur["ct"] = st, raw, ct
             try:
                 resp = client.execute(QUERY, operation_name="Q", variables={})
             except Exception as e:  # noqa: BLE001
@@ -288,7 +288,12 @@ def run(ctx):
             run.broken("model partition", f"{st} {c.raw!r} {hs}")
         if c.body != ("none",) and (r[2] == "t") != py_spec_body(c.body[1]):
             run.broken("spec_body predicate", f"harness and model disagree on {c.raw!r}")
-    raw_cases = [(st, c.raw) for st, c in cells]
+    # the response's Content-Type is not in the property's decision table: varied over the cells, outcome must not move
+    ctypes = ["application/json", "application/graphql-response+json", "text/html; charset=utf-8", None]
+    cell_ct = [ctypes[(i // len(statuses) + i % len(statuses)) % len(ctypes)] for i in range(len(cells))]
+    raw_cases = [(st, c.raw, ct) for (st, c), ct in zip(cells, cell_ct)]
+    for ct in cell_ct:
+        run.dist("response_content_type", str(ct))
     with ProcessPoolExecutor(max_workers=len(variants)) as ex:
         results = list(ex.map(_worker, [(i, raw_cases) for i in range(len(variants))]))
     k1_bad, k3_fail = [], []
@@ -297,17 +302,17 @@ def run(ctx):
         if len(obs) != len(cells):
             run.broken("impl run", f"{vname}: {len(obs)} of {len(cells)} observations")
             continue
-        for (st, c), r, o in zip(cells, mres, obs):
+        for (st, c), r, o, ct in zip(cells, mres, obs, cell_ct):
             run.count()
             mo = model_obs(r)
             if o != mo:
-                k1_bad.append((vname, st, c, o, mo))
+                k1_bad.append((vname, st, c, o, mo, ct))
             exp = k3_expected(st, c)
             if exp is not None and o[:len(exp)] != exp:
-                k3_fail.append((vname, st, c, o, exp))
+                k3_fail.append((vname, st, c, o, exp, ct))
             elif exp is None and o[0] == "execute-raised":
                 # the response never reached get_data: "no other exception type escapes" fails whatever the body
-                k3_fail.append((vname, st, c, o, ("(any get_data outcome)",)))
+                k3_fail.append((vname, st, c, o, ("(any get_data outcome)",), ct))
             if vname == results[0][0]:
                 kinds[mo[0]] = kinds.get(mo[0], 0) + 1
                 run.dist("status_class", "2xx" if 200 <= st <= 299 else ("out-of-range" if st in STATUSES_ODD else f"{st // 100}xx"))
@@ -323,24 +328,24 @@ def run(ctx):
     # ---- decide: K3 failures are property failures with a concrete input; the smallest is reported first ----
     k3_fail.sort(key=lambda t: (len(t[2].raw), abs(t[1] - 200), t[0]))
     seen = set()
-    for vname, st, c, o, exp in k3_fail:
+    for vname, st, c, o, exp, ct in k3_fail:
         key = (c.cls, o[0], exp[0])
         if key in seen:
             continue
         seen.add(key)
         run.violation(
-            f"{vname}: status {st} body {c.raw[:120]!r} ({c.cls}): property demands {exp[0]}, get_data gave {o[0]}",
-            {"client": vname, "status": st, "body": c.raw.decode("latin-1"), "body_class": c.cls,
+            f"{vname}: status {st} (response Content-Type {ct}) body {c.raw[:120]!r} ({c.cls}): property demands {exp[0]}, get_data gave {o[0]}",
+            {"client": vname, "status": st, "response_content_type": ct, "body": c.raw.decode("latin-1"), "body_class": c.cls,
              "expected": exp, "observed": o})
         if len(seen) >= 8:
             break
     if k1_bad and not k3_fail:
         k1_bad.sort(key=lambda t: (len(t[2].raw), abs(t[1] - 200), t[0]))
-        vname, st, c, o, mo = k1_bad[0]
+        vname, st, c, o, mo, ct = k1_bad[0]
         run.violation(
             f"K1: model and {vname} disagree on status {st} body {c.raw[:120]!r}: impl {o} model {mo}; the property text "
             f"does not judge this input (errors member not spec-shaped) or agrees with the code",
-            {"client": vname, "status": st, "body": c.raw.decode("latin-1"), "impl": o, "model": mo,
+            {"client": vname, "status": st, "response_content_type": ct, "body": c.raw.decode("latin-1"), "impl": o, "model": mo,
              "disagreements": len(k1_bad)}, found_input=False)
     want = {(200, "object:data=obj:errors=absent:extra=none"), (200, "object:data=obj-nullfield:errors=full:extra=none"),
             (500, "object:data=absent:errors=one:extra=none"), (200, "nonjson:html"),
